@@ -141,10 +141,10 @@ func (i memInfo) Mode() iofs.FileMode {
 	}
 	return 0o644
 }
-func (i memInfo) ModTime() time.Time        { return hostTreeTime }
-func (i memInfo) IsDir() bool               { return i.n.dir }
-func (i memInfo) Sys() any                  { return nil }
-func (i memInfo) Type() iofs.FileMode       { return i.Mode().Type() }
+func (i memInfo) ModTime() time.Time           { return hostTreeTime }
+func (i memInfo) IsDir() bool                  { return i.n.dir }
+func (i memInfo) Sys() any                     { return nil }
+func (i memInfo) Type() iofs.FileMode          { return i.Mode().Type() }
 func (i memInfo) Info() (iofs.FileInfo, error) { return i, nil }
 
 type memFile struct {
